@@ -233,7 +233,10 @@ def merge(dumps):
         "inconclusive_reasons": Counter(),
         "extra": {},
     }
+    m["reach"] = {}
     for d in dumps:
+        for fn, lines in (d.get("reach") or {}).items():
+            m["reach"].setdefault(fn, set()).update(lines)
         m["evaluations"] += d["evaluations"]
         m["verdicts"].update(d["verdicts"])
         for k, v in d["strata"].items():
@@ -528,6 +531,21 @@ def main(argv=None):
         "notes": m["notes"][:20],
         "extra": m["extra"],
     }
+    # reach of the anchored files: executable lines of /repo/labella/*.py executed under this workload
+    try:
+        anchors = []
+        for line in open(os.path.join(VERIF, "properties.jsonl")):
+            pj = json.loads(line)
+            if pj["id"] == pid:
+                anchors = [a.split("labella/")[-1] for a in pj["anchors"]["files"]]
+        reach = {}
+        for fn in sorted(set(anchors) | set(m["reach"])):
+            total = executable_lines(os.path.join(repo_path(), "labella", fn))
+            got = set(m["reach"].get(fn, ())) & total if total else set()
+            reach[fn] = {"lines_executed": len(got), "executable_lines": len(total), "anchored": fn in anchors}
+        cov["anchored_line_reach"] = reach
+    except Exception as e:  # evidence garnish only
+        cov["anchored_line_reach"] = {"error": repr(e)}
     if hasattr(mod, "EXHAUSTIVE"):
         ex = mod.EXHAUSTIVE(tier) if callable(mod.EXHAUSTIVE) else mod.EXHAUSTIVE
         if ex:
@@ -598,10 +616,70 @@ def replay_main(pid, tier, seed, path):
     return 0
 
 
+class Reach(object):
+    """Line reach of the repository's modules under this workload: sys.monitoring LINE events,
+    disabled per location after the first hit (so the cost is paid once per line)."""
+
+    def __init__(self):
+        self.hit = {}
+        self.on = False
+        self.root = os.path.join(repo_path(), "labella") + os.sep
+
+    def start(self):
+        mon = getattr(sys, "monitoring", None)
+        if mon is None or os.environ.get("VMON_REACH", "1") != "1":
+            return
+        try:
+            mon.use_tool_id(mon.COVERAGE_ID, "vmon-reach")
+        except ValueError:
+            return
+        root = self.root
+        hit = self.hit
+
+        def on_line(code, line):
+            fn = code.co_filename
+            if fn.startswith(root):
+                hit.setdefault(fn[len(root):], set()).add(line)
+            return mon.DISABLE
+
+        mon.register_callback(mon.COVERAGE_ID, mon.events.LINE, on_line)
+        mon.set_events(mon.COVERAGE_ID, mon.events.LINE)
+        self.on = True
+
+    def stop(self):
+        if not self.on:
+            return {}
+        mon = sys.monitoring
+        mon.set_events(mon.COVERAGE_ID, 0)
+        mon.free_tool_id(mon.COVERAGE_ID)
+        return {k: sorted(v) for k, v in self.hit.items()}
+
+
+def executable_lines(path):
+    """Line numbers that carry code in a source file (from the compiled code objects)."""
+    try:
+        code = compile(open(path, encoding="utf-8").read(), path, "exec")
+    except Exception:
+        return set()
+    out = set()
+    stack = [code]
+    while stack:
+        c = stack.pop()
+        for _, _, ln in c.co_lines():
+            if ln is not None:
+                out.add(ln)
+        for k in c.co_consts:
+            if hasattr(k, "co_lines"):
+                stack.append(k)
+    return out
+
+
 def worker_main(spec_path, out_path):
     spec = jloads(open(spec_path).read())
     sys.setrecursionlimit(1000)
     assert_repo_under_test()
+    reach = Reach()
+    reach.start()
     mod = load_prop(spec["pid"])
     ctx = Ctx(spec["pid"], spec["tier"], spec["seed"], spec["index"], spec["shard"])
     shard = spec["shard"]
@@ -613,5 +691,7 @@ def worker_main(spec_path, out_path):
     except BaseException:
         traceback.print_exc()
         raise
+    d = ctx.dump()
+    d["reach"] = reach.stop()
     with open(out_path, "w") as f:
-        f.write(jdumps(ctx.dump()))
+        f.write(jdumps(d))
